@@ -37,7 +37,7 @@ ASSUMPTIONS = [
     "qq_depth be ignored; a qq_depth keyword overrides configured min/max).",
 ]
 MIN_NONTRIVIAL = {'quick': 3000, 'thorough': 60000}
-REQUIRED_MONITORS = ['config-object-vs-text', 'roundtrip', 'unknown-name', 'wait_to_parse',
+REQUIRED_MONITORS = ['config-object-vs-text', 'bool-setting-odd-value', 'roundtrip', 'unknown-name', 'wait_to_parse',
                      'channel:bulk', 'channel:layout-over-copy_all',
                      'channel:A=C-reparsed',
                      'unknown-name:config-attribute', 'channel:A=B', 'channel:A=C',
@@ -647,6 +647,30 @@ def run_roundtrip(rng, ctx, pytrs):
                                   f"{text!r} gives {got}, via the text {exp}",
                                   dedup=f"plss|{label}")
                     break
+    if rng.random() < 0.2:
+        # A yes/no setting spelt with a value other than True / False is
+        # either rejected (ValueError) or read as the bool it plainly says;
+        # it never ends up as some other (truthy) object.
+        name = rng.choice([k for k in ATTRS16
+                           if k in pytrs.Config._BOOL_TYPE_ATTRIBUTES])
+        val = rng.choice(['false', 'true', 'FALSE', 'TRUE', '0', '1', 'no',
+                          'yes', 'off', 'x', '2'])
+        sep = rng.choice('.=')
+        odd = f"{name}{sep}{val}"
+        ctx.hit('bool-setting-odd-value')
+        ctx.case(odd, True, shape='bool-odd-value')
+        try:
+            got = getattr(pytrs.Config(odd), name)
+        except ValueError:
+            got = ValueError
+        if got is not ValueError:
+            says = {'false': False, 'true': True}.get(val.lower())
+            if not isinstance(got, bool) or (says is not None and got != says):
+                ctx.violation(
+                    'config-text-misread',
+                    {'kind': 'roundtrip', 'settings': {}, 'text': odd},
+                    f"Config({odd!r}).{name} == {got!r}: neither rejected "
+                    f"nor the bool the text says", dedup=f"odd|{val.lower()}")
     if rng.random() < 0.15:
         if rng.random() < 0.5:
             name = rng.choice(UNKNOWN)
